@@ -401,8 +401,9 @@ def c14_page(total: int, pagenum: int, pagelen: int) -> Optional[str]:
     pre: 0 <= total <= 12 and 1 <= pagenum <= 6 and 1 <= pagelen <= 5
     post: _ is None
     """
+    pn0, pl0 = pagenum - 1, pagelen - 1
     with notrace():
-        r = run_page(pick(total, 13), pick(pagenum - 1, 6) + 1, pick(pagelen - 1, 5) + 1)
+        r = run_page(pick(total, 13), pick(pn0, 6) + 1, pick(pl0, 5) + 1)
     tick(True)
     return r
 
